@@ -4,6 +4,7 @@ import (
 	"fmt"
 	"math"
 	"math/rand/v2"
+	"net"
 	"net/http"
 	"net/rpc"
 	"os"
@@ -360,6 +361,22 @@ func (r *c17run) checkIdReads(entry int, col c17col, degraded bool, down map[str
 	}
 }
 
+// waitTCP waits until addr accepts connections.
+func waitTCP(addr string, timeout time.Duration) error {
+	deadline := time.Now().Add(timeout)
+	for {
+		conn, err := net.DialTimeout("tcp", addr, time.Second)
+		if err == nil {
+			conn.Close()
+			return nil
+		}
+		if time.Now().After(deadline) {
+			return fmt.Errorf("rpc port %s does not accept connections: %v", addr, err)
+		}
+		time.Sleep(50 * time.Millisecond)
+	}
+}
+
 // startProcCluster starts n node processes that know each other.
 func startProcCluster(env *fw.Env, n int, perShard int64, plans map[string]models.UserPlan, extraEnv []string) ([]*httpx.ProcNode, []string, error) {
 	ports, err := httpx.FreePorts(2 * n)
@@ -386,6 +403,13 @@ func startProcCluster(env *fw.Env, n int, perShard int64, plans map[string]model
 	for _, nd := range nodes {
 		if err := nd.WaitHTTP(30 * time.Second); err != nil {
 			return nodes, servers, fmt.Errorf("%v\n%s", err, tailStr(nd.Log(), 1500))
+		}
+	}
+	// the rpc listener of a node is bound by a goroutine of its own: on a loaded machine the HTTP API
+	// can answer before it does (start-up order is not what these checks are about)
+	for _, srv := range servers {
+		if err := waitTCP(srv, 20*time.Second); err != nil {
+			return nodes, servers, err
 		}
 	}
 	return nodes, servers, nil
@@ -804,6 +828,11 @@ func (c17) RunCase(c fw.Case, env *fw.Env) *fw.CaseResult {
 					res.Violate("restart", "C17:restart-with-damaged-shard", fmt.Sprintf("a server holding one unreadable shard file does not come up again: %v\n%s", err, tailStr(nodes[k].Log(), 1200)), nil)
 					return res
 				}
+			}
+			if err := waitTCP(nodes[k].RPCAddr, 20*time.Second); err != nil {
+				res.Note("damaged-shard scenario: %v", err)
+				res.Inconclusive++
+				return res
 			}
 			http.DefaultTransport.(*http.Transport).CloseIdleConnections()
 			damaged[ds] = true
